@@ -548,6 +548,23 @@ def foreign_variants(rng: random.Random, R: dict) -> list:
     if f:
         var("applied_filters-removed", applied_filters=f[:-1])
     var("applied_filters-added", applied_filters=f + [{"name": "path_length", "args": [1], "kwargs": {}}])
+    if f:
+        # same filter names in the same order, one argument differs
+        g = [dict(x) for x in f]
+        i = rng.randrange(len(g))
+        if g[i].get("args"):
+            a = list(g[i]["args"])
+            a[0] = (a[0] + 1) if isinstance(a[0], (int, float)) and a[0] is not None else 1
+            g[i]["args"] = a
+        elif g[i].get("kwargs"):
+            k0 = sorted(g[i]["kwargs"])[0]
+            v0 = g[i]["kwargs"][k0]
+            g[i]["kwargs"] = dict(g[i]["kwargs"], **{k0: (v0 + 1) if isinstance(v0, (int, float)) and v0 is not None else 1})
+        else:
+            g[i]["kwargs"] = {"minimum_difference_connection_list": 2} if g[i]["name"] == "remove_duplicates" else g[i]["kwargs"]
+        if g != f:
+            var("applied_filters-argument", applied_filters=g)
+    var("seq_len_max", seq_len_max=256)
     var("n_mazes", n_mazes=R["n_mazes"] + rng.choice([1, 2, 3]))
     if R["n_mazes"] > 1:
         var("n_mazes", n_mazes=R["n_mazes"] - 1)
@@ -587,6 +604,23 @@ def scenarios_for(rng: random.Random, R: dict, layout: dict, tier: str) -> list:
         offs = sorted(set(range(rng.randrange(stride), size, stride)) | set(layout["bounds"]))
         for b in offs:
             sc.append({"kind": "flip", "at": b, "mask": rng.choice([0x01, 0x80, 0xFF, rng.randrange(1, 256)])})
+    # every byte of every zip structural record (local headers, central directory records, end record): these are
+    # the bytes whose corruption makes the reader fail in *different ways* (BadZipFile, NotImplementedError, RuntimeError,
+    # KeyError, zlib.error, ...), so each is hit with several masks
+    smasks = [0x01, 0x80, 0xFF] if tier == "quick" else [0x01, 0x02, 0x04, 0x08, 0x10, 0x20, 0x40, 0x80, 0xFF]
+    struct_bytes = set()
+    for name, h0, h1, d1 in layout["members"]:
+        struct_bytes.update(range(h0, h1))
+    struct_bytes.update(range(layout["start_dir"], size))
+    sb = sorted(b for b in struct_bytes if 0 <= b < size)
+    if tier == "quick" and len(sb) > 700:
+        # keep it bounded: all of the central directory + end record, a seeded sample of the local headers
+        cd = [b for b in sb if b >= layout["start_dir"]]
+        lh = [b for b in sb if b < layout["start_dir"]]
+        sb = sorted(set(cd[:520]) | set(rng.sample(lh, min(len(lh), 180))))
+    for b in sb:
+        for m in smasks:
+            sc.append({"kind": "flip", "at": b, "mask": m, "region": "zip-structure"})
     # zeroed blocks: each member's header and data, the central directory, the end record
     for name, h0, h1, d1 in layout["members"]:
         sc.append({"kind": "zero", "from": h0, "to": h1})
@@ -645,6 +679,8 @@ def execute_all(pool, rng: random.Random, tier: str, n: int):
             i = drawn
             drawn += 1
             R = _ds.rand_cfgspec(rng, max_n=6 if tier == "thorough" else 5, max_mazes=8, filters=True, rich_endpoints=(i % 2 == 0))
+            if i % 2 == 1 and not R["applied_filters"]:
+                R["applied_filters"] = [rng.choice([{"name": "path_length", "args": [rng.randint(1, 3)], "kwargs": {}}, {"name": "start_end_distance", "args": [], "kwargs": {"min_distance": rng.randint(0, 2)}}, {"name": "truncate_count", "args": [rng.randint(2, 6)], "kwargs": {}}])]
             knobs = rand_knobs(rng, R["n_mazes"])
             if i % 3 == 2:  # every third configuration selects the minimal format through a lowered threshold
                 knobs["threshold"] = rng.choice([1, 2, R["n_mazes"]])
